@@ -440,7 +440,9 @@ def cfg_small_shapes():
     L = lambda i: {"k": "leaf", "id": i, "b": [0, 1]}
     comp1 = {"k": "All", "id": "B", "c": [L("a"), L("b")]}
     comp2 = {"k": "Any", "id": None, "c": [L("c"), L("d")]}
-    member_sets = [[L("p"), L("q")], [L("p"), L("q"), L("r")], [L("a"), L("b"), L("c"), L("d")], [L("k1"), L("k2"), L("k3")], [comp1, L("c")], [L("c"), comp1], [comp1, comp2], [comp1, comp2, L("e")], [comp2, L("e")]]
+    N = lambda i, lo, hi: {"k": "leaf", "id": i, "b": [lo, hi]}
+    member_sets = [[L("p"), L("q")], [L("p"), L("q"), L("r")], [L("a"), L("b"), L("c"), L("d")], [L("k1"), L("k2"), L("k3")],
+                   [N("n", 0, 3), L("q")], [N("k", 1, 1), L("q"), L("r")], [N("m", -2, 3), L("q")], [comp1, L("c")], [L("c"), comp1], [comp1, comp2], [comp1, comp2, L("e")], [comp2, L("e")]]
     for kind in ("cAny", "cXor"):
         for ms in member_sets:
             leaf_ids = [m["id"] for m in ms if m["k"] == "leaf"]
